@@ -19,7 +19,10 @@ import (
 	"tunnox-core/internal/core/types"
 	"tunnox-core/internal/packet"
 	"tunnox-core/internal/protocol/session"
+	"tunnox-core/internal/stream"
 )
+
+var _ stream.PackageStreamer = (*pstream)(nil)
 
 // ---------------------------------------------------------------------------------------------
 // operation codes (shared with Model/Registry.v `op` and lib/props/c07.py)
@@ -57,6 +60,79 @@ func (t *transport) Write(p []byte) (int, error) {
 }
 func (t *transport) Close() error            { t.closed = true; return nil }
 func (t *transport) GetConnectionID() string { return t.id }
+
+// pstream: the transport presented to the server as a ready-made PackageStreamer (as the WebSocket adapter does), so that
+// every WritePacket / Close the server performs on it is ONE I/O call.  Before and after every such call that is not
+// made under the registry mutex the world may run another operation to completion (interleaving point).
+type pstream struct {
+	t *transport
+	n int
+	w *world
+}
+
+func (p *pstream) Read(b []byte) (int, error)  { return 0, io.EOF }
+func (p *pstream) Write(b []byte) (int, error) { return p.t.Write(b) }
+func (p *pstream) GetReader() io.Reader        { return p }
+func (p *pstream) GetWriter() io.Writer        { return p }
+func (p *pstream) GetConnectionID() string     { return p.t.id }
+func (p *pstream) ReadPacket() (*packet.TransferPacket, int, error) {
+	return nil, 0, io.EOF
+}
+func (p *pstream) ReadExact(length int) ([]byte, error) { return nil, io.EOF }
+func (p *pstream) WriteExact(data []byte) error {
+	_, err := p.t.Write(data)
+	return err
+}
+func (p *pstream) WritePacket(pkt *packet.TransferPacket, useCompression bool, rate int64) (int, error) {
+	p.w.point(p.n)
+	var err error
+	if p.t.closed || p.t.failWrites {
+		err = errors.New("transport: write failed")
+	}
+	p.w.point(p.n)
+	if err != nil {
+		return 0, err
+	}
+	return 1, nil
+}
+func (p *pstream) Close() {
+	p.w.point(p.n)
+	p.t.closed = true
+	p.w.point(p.n)
+}
+
+// injection: at the `at`-th interleaving point of the host operation run `op` to completion
+type injSpec struct {
+	at    int
+	op    []int
+	seen  int
+	done  bool
+	fired bool
+}
+
+func (w *world) point(conn int) {
+	in := w.inj
+	if in == nil || in.done || w.sm.VerifClientRegistry().VerifLocked() {
+		return
+	}
+	i := in.seen
+	in.seen++
+	if i != in.at {
+		return
+	}
+	in.done = true
+	// packets of the connection whose stream is performing this I/O call are handled by the goroutine that is
+	// performing it (one read loop per connection): they cannot arrive here
+	if c := arg(in.op, 0); (c == opHandshake || c == opHeartbeat) && arg(in.op, 1) == conn {
+		return
+	}
+	in.fired = true
+	w.inj = nil
+	w.stampNew()
+	w.apply(in.op)
+	w.stampNew()
+	w.inj = in
+}
 
 // scripted auth handler: what the next HandleHandshake does is set by the operation
 type authHandler struct {
@@ -98,11 +174,14 @@ type caseIn struct {
 	Depth    int     `json:"depth"`
 	Stride   int     `json:"stride"`
 	Offset   int     `json:"offset"`
+	InjFrom  *int    `json:"injfrom"` // first position that may host an injection (default: after the prefix)
+	Inject   [][]int `json:"inject"` // "ex" mode: also run every word with every one of these operations injected at every interleaving point of one handshake/close/kick
 }
 
 type stepObs struct {
 	Err    int      `json:"err"`
 	N      int      `json:"n"`
+	Fired  int      `json:"fired"`
 	Sess   []int    `json:"sess"`
 	Reg    [][4]int `json:"reg"` // c, cid, auth, stale
 	Idx    [][2]int `json:"idx"` // x, c
@@ -129,6 +208,7 @@ type exOut struct {
 	Viol    []exViol  `json:"viol"`
 	NViol   int       `json:"nviol"`
 	NKnown  int       `json:"nknown"`
+	Fired   int       `json:"fired"` // interleaved runs in which the injected operation actually ran
 	KnownEx []exViol  `json:"known_examples"`
 	Emitted []exEmit  `json:"emitted"`
 }
@@ -158,6 +238,8 @@ type world struct {
 	clients []int
 	tunnels []int
 	dead    map[int]bool
+	pk      bool // transports are PackageStreamers (interleaving cases)
+	inj     *injSpec
 }
 
 func cname(c int) string { return fmt.Sprintf("c%d", c) }
@@ -194,8 +276,18 @@ func addUniq(l []int, v int) []int {
 	return append(l, v)
 }
 
-func universe(ops [][]int) (conns, clients, tunnels []int) {
+func hasInj(o []int) bool { return len(o) > 6 && o[5] > 0 }
+func injOf(o []int) []int { return o[6:] }
+
+func universe(ops0 [][]int) (conns, clients, tunnels []int) {
 	clients = []int{0}
+	ops := [][]int{}
+	for _, o := range ops0 {
+		ops = append(ops, o)
+		if hasInj(o) {
+			ops = append(ops, injOf(o))
+		}
+	}
 	for _, o := range ops {
 		g := func(i int) int {
 			if i < len(o) {
@@ -239,6 +331,11 @@ func newWorld(cfg cfgIn, ops [][]int) *world {
 		seen: map[*session.ControlConnection]int{}, epoch: time.Now().Add(-1000 * hour), dead: map[int]bool{}}
 	sm.SetAuthHandler(w.auth)
 	w.conns, w.clients, w.tunnels = universe(ops)
+	for _, o := range ops {
+		if hasInj(o) {
+			w.pk = true
+		}
+	}
 	return w
 }
 
@@ -391,7 +488,13 @@ func (w *world) apply(o []int) (int, int) {
 	switch arg(o, 0) {
 	case opAccept:
 		t := &transport{id: id}
-		_, err := sm.AcceptConnection(t, t)
+		var err error
+		if w.pk {
+			ps := &pstream{t: t, n: c, w: w}
+			_, err = sm.AcceptConnection(ps, ps)
+		} else {
+			_, err = sm.AcceptConnection(t, t)
+		}
 		if err != nil {
 			return 1, 0
 		}
@@ -467,7 +570,7 @@ func (w *world) apply(o []int) (int, int) {
 // ---------------------------------------------------------------------------------------------
 // the C07 predicate, evaluated on the real code's own answers
 // ---------------------------------------------------------------------------------------------
-func (w *world) check(step int, o []int, errFlag, n int, pre, post *snap) []viol {
+func (w *world) check(step int, o []int, errFlag, n int, fired bool, pre, post *snap) []viol {
 	var vs []viol
 	add := func(kind string, known bool, f string, a ...interface{}) {
 		vs = append(vs, viol{Step: step, Kind: kind, Msg: fmt.Sprintf(f, a...), Known: known})
@@ -558,7 +661,11 @@ func (w *world) check(step int, o []int, errFlag, n int, pre, post *snap) []viol
 				len(pre.sess), len(post.sess), len(pre.reg), len(post.reg), len(pre.tun), len(post.tun), len(pre.idx), len(post.idx), len(pre.closed), len(post.closed))
 		}
 	}
-	switch code {
+	pcode := code
+	if fired {
+		pcode = -1 // another operation ran inside this one: only the global invariant applies
+	}
+	switch pcode {
 	case opAccept:
 		if errFlag == 0 {
 			if !post.sess[c] || post.cnt[0] != pre.cnt[0]+1 || post.cnt[1] != pre.cnt[1] || post.cnt[2] != pre.cnt[2] {
@@ -654,12 +761,24 @@ func runSeq(cfg cfgIn, ops [][]int, wantObs bool) ([]stepObs, []viol) {
 	var vs []viol
 	pre := w.snapshot()
 	for i, o := range ops {
-		e, n := w.apply(o)
+		host := o
+		fired := false
+		if hasInj(o) {
+			host = o[:5]
+			w.inj = &injSpec{at: o[5] - 1, op: injOf(o)}
+		}
+		e, n := w.apply(host)
+		if w.inj != nil {
+			fired = w.inj.fired
+			w.inj = nil
+		}
 		w.stampNew()
 		post := w.snapshot()
-		vs = append(vs, w.check(i, o, e, n, pre, post)...)
+		vs = append(vs, w.check(i, host, e, n, fired, pre, post)...)
 		if wantObs {
-			steps = append(steps, post.obs(e, n))
+			ob := post.obs(e, n)
+			ob.Fired = b2i(fired)
+			steps = append(steps, ob)
 		}
 		pre = post
 	}
@@ -715,28 +834,67 @@ func runExhaustive(c *caseIn) interface{} {
 			for _, i := range idx {
 				ops = append(ops, c.Alphabet[i])
 			}
-			emit := (out.Total+c.Offset)%stride == 0
-			steps, vs := runSeq(c.Cfg, ops, emit)
-			out.Total++
-			out.Steps += len(ops)
-			if len(vs) > 0 {
-				if attributable(vs) {
-					out.NKnown++
-					if len(out.KnownEx) < 2 {
-						out.KnownEx = append(out.KnownEx, exViol{Ops: ops, Viol: vs})
-					}
-				} else {
-					out.NViol++
-					if len(out.Viol) < 5 {
-						out.Viol = append(out.Viol, exViol{Ops: ops, Viol: vs})
+			variants := [][][]int{ops}
+			from := len(c.Prefix)
+			if c.InjFrom != nil {
+				from = *c.InjFrom
+			}
+			for i := from; i < len(ops) && len(c.Inject) > 0; i++ {
+				pts := 0
+				switch arg(ops[i], 0) {
+				case opHandshake, opCloseConn:
+					pts = 2
+				case opKick:
+					pts = 4
+				}
+				for at := 0; at < pts; at++ {
+					for _, j := range c.Inject {
+						v := append([][]int{}, ops...)
+						h := append([]int{}, ops[i]...)
+						for len(h) < 5 {
+							h = append(h, 0)
+						}
+						h = append(h, at+1)
+						h = append(h, j...)
+						v[i] = h
+						variants = append(variants, v)
 					}
 				}
 			}
-			if emit {
-				if vs == nil {
-					vs = []viol{}
+			for vi, vops := range variants {
+				emit := (out.Total+c.Offset)%stride == 0
+				steps, vs := runSeq(c.Cfg, vops, true)
+				if vi > 0 {
+					f := false
+					for _, st := range steps {
+						f = f || st.Fired == 1
+					}
+					if !f {
+						continue // the injection point was not reached: same run as the plain word
+					}
+					out.Fired++
 				}
-				out.Emitted = append(out.Emitted, exEmit{Ops: ops, Steps: steps, Viol: vs, Attr: attributable(vs)})
+				out.Total++
+				out.Steps += len(vops)
+				if len(vs) > 0 {
+					if attributable(vs) {
+						out.NKnown++
+						if len(out.KnownEx) < 2 {
+							out.KnownEx = append(out.KnownEx, exViol{Ops: vops, Viol: vs})
+						}
+					} else {
+						out.NViol++
+						if len(out.Viol) < 5 {
+							out.Viol = append(out.Viol, exViol{Ops: vops, Viol: vs})
+						}
+					}
+				}
+				if emit {
+					if vs == nil {
+						vs = []viol{}
+					}
+					out.Emitted = append(out.Emitted, exEmit{Ops: vops, Steps: steps, Viol: vs, Attr: attributable(vs)})
+				}
 			}
 			// next word
 			j := d - 1
